@@ -283,10 +283,10 @@ def run(ctx):
                   + (", first pass" if st1 == "ok" and p1 == dp else ", second pass"))
 
     def retype_tie(info, d, pos, ct, replay):
-        """`canChangeType_setNodeMarkup_applies` where the real can_change_type approves and the node after `pos` is a
-        non-leaf node: tr.set_node_markup(pos, type, attrs) vs `changeTypeGuard`"""
+        """`canChangeType_setNodeMarkup_applies` / `…_leaf_applies` where the real can_change_type approves:
+        tr.set_node_markup(pos, type, attrs) vs `changeTypeGuard`"""
         stn, node = outcome(lambda: d.node_at(pos))
-        if stn != "ok" or node is None or node.is_leaf or d.resolve(pos).text_offset != 0:
+        if stn != "ok" or node is None:
             return
         attrs = gen.gen_attrs(rng2, ct)
         tr = Transform(d)
@@ -297,12 +297,17 @@ def run(ctx):
         exact = False
         if good and len(tr.steps) == 1:
             e = pos + node.node_size
-            want = ReplaceAroundStep(pos, e, pos + 1, e - 1, Slice(Fragment.from_(ct.create(attrs, None, node.marks)), 0, 0), 1, True)
+            new = ct.create(attrs, None, node.marks)
+            if node.is_leaf:
+                want = ReplaceStep(pos, e, Slice(Fragment.from_(new), 0, 0))
+            else:
+                want = ReplaceAroundStep(pos, e, pos + 1, e - 1, Slice(Fragment.from_(new), 0, 0), 1, True)
             exact = tr.steps[0].to_json() == want.to_json()
         stv, valid = outcome(lambda: ct.valid_content(node.content))
         reqs.append({"op": "insGuard", "k": "retype", "s": info.lean_id, "doc": info.node(d), "p": pos, "ty": info.nid[ct.name]})
-        metas.append(("insguard retype", dict(replay, attrs=attrs, real=str(val)[:120] if sta != "ok" else "ok"),
-                      {"good": good, "exact": exact, "valid": bool(valid) if stv == "ok" else None}))
+        metas.append(("insguard retype " + ("leaf" if node.is_leaf else "non-leaf"),
+                      dict(replay, attrs=attrs, real=str(val)[:120] if sta != "ok" else "ok"),
+                      {"good": good, "exact": exact, "valid": bool(valid) if stv == "ok" and d.resolve(pos).text_offset == 0 else None}))
 
     def marked(node, schema):
         """a copy of `node` carrying one mark (own random stream), or None"""
